@@ -1240,6 +1240,13 @@ func (p *printer) stmtList(list []ast.Stmt, nindent int, nextIsRBrace bool) {
 	}
 	var line int
 	i := 0
+	// number of statements that are printed (empty statements are ignored below)
+	n := 0
+	for _, s := range list {
+		if _, isEmpty := s.(*ast.EmptyStmt); !isEmpty {
+			n++
+		}
+	}
 	for _, s := range list {
 		// ignore empty statements (was issue 3466)
 		if _, isEmpty := s.(*ast.EmptyStmt); !isEmpty {
@@ -1251,7 +1258,7 @@ func (p *printer) stmtList(list []ast.Stmt, nindent int, nextIsRBrace bool) {
 				p.linebreak(p.lineFor(s.Pos()), 1, ignore, i == 0 || nindent == 0 || p.linesFrom(line) > 0)
 			}
 			p.recordLine(&line)
-			p.stmt(s, nextIsRBrace && i == len(list)-1)
+			p.stmt(s, nextIsRBrace && i == n-1)
 			// labeled statements put labels on a separate line, but here
 			// we only care about the start line of the actual statement
 			// without label - correct line for each label
